@@ -7,9 +7,14 @@ message flag; partial_credit; ordered; debug) x an input alphabet per family (a 
 alternative, near misses, the empty string, unicode garbage; for lists every tuple of the right
 length) x attempt numbers.  Every call that returns is checked against the structural invariants
 of the statement; calls that raise are C02's business and only counted.
+
+Further families: positional correspondence of entries and inputs (flat, interleaved groupings, nested lists); call
+histories of a debug=False grader shared with a debug=True parent, including parent calls that raise; item graders
+without configured answers called with the expect attribute edX passes (answers inferred, re-inferred, kept).
 """
 import itertools
 import numbers
+import numpy as np
 from ..core import Family, Result, viol, HarnessError
 from ..fixtures import TableGrader
 from .. import chooser
@@ -25,12 +30,15 @@ RULE = ('configuration grammar x input alphabet x attempts per grader family, al
 EXPLANATION = 'states = distinct configurations; transitions = real grader calls (one per input x attempt)'
 ASSUMPTIONS = ['calls that raise are not judged here (C02)',
                'an entry that may have matched an alternative with pinned ok is only required to have ok in {True, False, "partial"}',
+               'an ok pinned on an answer whose grade_decimal is not 1 is no pin: the ItemGrader documentation says it is ignored, '
+               'so such an entry must be self-consistent like any other',
                'Sum graders return the single-entry form for their list of boxes; both forms are accepted for them',
                'debug markers: the fixed strings the debug log is made of ("MITx Grading Library Version", ...)']
 
 DEBUG_MARKERS = ['MITx Grading Library Version', 'Running on edX using python', 'Student Response', 'Expect value inferred',
                  'Evaluation Data for Sample Number', 'Comparison Data for All', 'Attempt number', 'Maximum credit is',
-                 'Summation Data for Sample', 'Debug Info', 'Using modified defaults']
+                 'Summation Data for Sample', 'Integration Data for Sample', 'Debug Info', 'Using modified defaults',
+                 'Functions available during evaluation', 'Comparer Function:']
 
 ATTEMPTS_T = ['absent', 1, 2, 7, 0, -3]
 ATTEMPTS_Q = ['absent', 1, 3, 0]
@@ -171,15 +179,39 @@ def alt_pool(e1, e2, e3):
         # credits that are not 0 / not 1 but round to them at four decimals: ok must still be 'partial'
         ('tiny', {'expect': e3, 'grade_decimal': 0.00004, 'msg': 'tiny'}, False),
         ('almost', {'expect': e2, 'grade_decimal': 0.99996}, False),
+        # EXTRA alternatives (index >= N_CORE, see subsets()): an ok that the author pinned on an answer whose credit is
+        # not 1.  The ItemGrader class documentation ('grade_decimal: ... If set, overrides ok entry'; 'ok: ... Ignored if
+        # grade_decimal is not 1') says the pin is ignored there, so the entry must stay self-consistent: no pin exemption
+        ('pinThalf', {'expect': e2, 'ok': True, 'grade_decimal': 0.5}, False),
+        ('pinPzero', {'expect': e3, 'ok': 'partial', 'grade_decimal': 0, 'msg': 'pinned partial, worth nothing'}, False),
     ]
 
 
-def subsets(pool, tier):
+N_CORE = 10
+
+
+def subsets(pool, tier, slim=False):
+    """core alternatives: every subset of <= 2 [thorough 3]; extra alternatives: alone [thorough: and paired with full / half / zero / pinF / pinP].
+    slim (kinds that add a new code path, not a new credit structure): every alternative alone and paired with 'full'
+    [thorough: every subset of <= 2]"""
     n = len(pool)
+    if slim:
+        for i in range(n):
+            yield (i,)
+        for combo in itertools.combinations(range(n), 2):
+            if tier == 'thorough' or combo[0] == 0:
+                yield combo
+        return
     maxk = 2 if tier == 'quick' else 3
     for k in range(1, maxk + 1):
-        for combo in itertools.combinations(range(n), k):
+        for combo in itertools.combinations(range(N_CORE), k):
             yield combo
+    for x in range(N_CORE, n):
+        yield (x,)
+    if tier == 'thorough':
+        for x in range(N_CORE, n):
+            for i in (0, 1, 3, 5, 6):       # full, half, zero, pinF, pinP
+                yield (i, x)
 
 
 def _chatty_comparer(comparer_params_eval, student_eval, utils):
@@ -187,6 +219,35 @@ def _chatty_comparer(comparer_params_eval, student_eval, utils):
     if utils.within_tolerance(comparer_params_eval[0], student_eval):
         return {'ok': True, 'grade_decimal': 1, 'msg': 'comparer says yes'}
     return {'ok': False, 'grade_decimal': 0, 'msg': 'comparer says no'}
+
+
+def _forms_comparer(yes, half, no):
+    """an author-written comparer that answers in one of the return forms a check function may use (True / False / 'partial' in any
+    case / a dictionary with grade_decimal and optionally msg and ok; numpy booleans as numpy comparisons produce them):
+    `yes` when the input equals the expected value, `half` when it is twice the expected value, `no` otherwise"""
+    def comparer(comparer_params_eval, student_eval, utils):
+        if utils.within_tolerance(comparer_params_eval[0], student_eval):
+            return dict(yes) if isinstance(yes, dict) else yes
+        if utils.within_tolerance(2 * comparer_params_eval[0], student_eval):
+            return dict(half) if isinstance(half, dict) else half
+        return dict(no) if isinstance(no, dict) else no
+    return comparer
+
+
+def _interval_parts():
+    """IntervalGrader answers in the four-entry list form, brackets and bounds with their own alternatives, credits and messages
+    (fresh lists on every call: the library validates these lists in place)"""
+    return (['[', '1', '2', (']', {'expect': ')', 'grade_decimal': 0.5, 'msg': 'closed?'})],
+            [('(', {'expect': '[', 'grade_decimal': 0, 'msg': 'open!'}), {'expect': '0', 'grade_decimal': 0.5},
+             ('1', {'expect': '2', 'grade_decimal': 0.25, 'msg': 'hm'}), ']'],
+            [{'expect': '[', 'msg': 'bracket fine'}, '0', {'expect': 'infty', 'grade_decimal': 0.99996}, ')'])
+
+
+def _singlelist_parts():
+    """SingleListGrader answers as lists whose items carry their own alternatives, credits and messages (fresh lists on every call)"""
+    return (['a', {'expect': 'b', 'grade_decimal': 0.5, 'msg': 'b half'}],
+            [('c', 'C'), {'expect': 'd', 'grade_decimal': 0, 'msg': 'd zero'}],
+            [{'expect': 'e', 'ok': 'partial'}, ('f', {'expect': 'g', 'grade_decimal': 0.00004, 'msg': 'g tiny'})])
 
 
 ITEM_KINDS = {
@@ -225,6 +286,62 @@ ITEM_KINDS = {
                                 e=('a,b', 'c,d', 'e,f'), inputs=['a,b', 'b,a', 'c,d', 'a', 'a,b,c', '']),
     'Interval': dict(make=lambda **kw: IntervalGrader(**kw), e=('[1,2]', '(0,1]', '[0,infty)'),
                      inputs=['[1,2]', '(1,2]', '(0,1]', '[0,infty)', '[1,3]', '', 'ünï—²']),
+    # ---- slim kinds: a code path that builds or combines results which the kinds above do not reach, reduced credit grammar
+    # shape mismatches graded wrong with an explanation instead of raised (MatrixGrader.check_response, the non-suppressed returns)
+    'MatrixShapeExplained': dict(slim=True,
+                                 make=lambda **kw: MatrixGrader(shape_errors=False,
+                                                                answer_shape_mismatch=dict(is_raised=False, msg_detail='shape'), **kw),
+                                 e=('[1,2]', '[3,4]', '[5,6]'),
+                                 inputs=['[1,2]', '[3,4]', '[5,6]', '[1,2,3]', '[1,2]+[1,2,3]', '1', '[3,4]+[1,2]*[1,2,3]', '']),
+    'MatrixShapeSilent': dict(slim=True, thorough_only=True,
+                              make=lambda **kw: MatrixGrader(shape_errors=False, entry_partial_credit='proportional',
+                                                             answer_shape_mismatch=dict(is_raised=False, msg_detail=None), **kw),
+                              e=('[1,2]', '[3,4]', '[5,6]'),
+                              inputs=['[1,2]', '[3,0]', '[5,6]', '[1,2,3]', '[1,2]+[1,2,3]', '1', '']),
+    # a validation pattern: inputs that fail it are graded wrong with / without a message before any answer is looked at
+    'StringValidationMsg': dict(slim=True,
+                                make=lambda **kw: StringGrader(validation_pattern='[a-z]+', explain_validation='msg', **kw),
+                                e=('cat', 'dog', 'emu'), inputs=['cat', 'dog', 'emu', 'CAT', 'c4t', '', 'ünï—²', 'gnu']),
+    'StringValidationQuiet': dict(slim=True, thorough_only=True,
+                                  make=lambda **kw: StringGrader(validation_pattern='[a-z]+', explain_validation=None, accept_any=True,
+                                                                 invalid_msg='', **kw),
+                                  e=('cat', 'dog', 'emu'), inputs=['cat', 'CAT', 'c4t', '', 'ünï—²']),
+    # comparers answering in every return form a check function may use (ItemGrader.standardize_cfn_return)
+    'FormulaComparerForms': dict(slim=True, make=lambda **kw: FormulaGrader(variables=['x'], **kw),
+                                 e=({'comparer': _forms_comparer(np.True_, 'Partial', np.False_), 'comparer_params': ['x^2']},
+                                    {'comparer': _forms_comparer({'grade_decimal': 1}, {'grade_decimal': 0.75, 'msg': 'three quarters'},
+                                                                 {'grade_decimal': 0}), 'comparer_params': ['x+1']},
+                                    {'comparer': _forms_comparer({'ok': True, 'grade_decimal': 1.0, 'msg': 'yes'}, 'partial',
+                                                                 {'ok': False, 'grade_decimal': 0.0, 'msg': 'no'}),
+                                     'comparer_params': ['2*x']}),
+                                 inputs=['x^2', '2*x^2', 'x+1', '2*x+2', '2*x', '4*x', '3*x', '']),
+    # the same through NumericalGrader (one sample, its own default comparer) and failable_evals through FormulaGrader
+    'NumericalComparerForms': dict(slim=True, thorough_only=True, make=lambda **kw: NumericalGrader(**kw),
+                                   e=({'comparer': _forms_comparer(True, 'partial', False), 'comparer_params': ['2']},
+                                      {'comparer': _forms_comparer({'grade_decimal': 1, 'msg': 'one'}, {'grade_decimal': 0.00004},
+                                                                   {'grade_decimal': 0, 'msg': 'nought'}), 'comparer_params': ['3']},
+                                      {'comparer': _forms_comparer(np.True_, {'grade_decimal': 0.99996, 'msg': 'nearly'}, np.False_),
+                                       'comparer_params': ['5']}),
+                                   inputs=['2', '4', '3', '6', '5', '10', '7', '']),
+    # answers given part by part: brackets / bounds / list items with their own alternatives, credits and messages
+    'IntervalParts': dict(slim=True, make=lambda **kw: IntervalGrader(**kw), e=_interval_parts,
+                          inputs=['[1,2]', '[1,2)', '(0,1]', '[0,2]', '[0,1]', '(1,2]', '[0,infty)', '[0,infty]', '(0,3)', '']),
+    'IntervalPartsNoPartial': dict(slim=True, thorough_only=True,
+                                   make=lambda **kw: IntervalGrader(partial_credit=False,
+                                                                    subgrader=FormulaGrader(tolerance=1e-13, allow_inf=True), **kw),
+                                   e=_interval_parts,
+                                   inputs=['[1,2]', '[1,2)', '(0,1]', '[0,2]', '[0,1]', '[0,infty)', '(0,3)', '']),
+    'SingleListParts': dict(slim=True, make=lambda **kw: SingleListGrader(subgrader=StringGrader(wrong_msg='item wrong'),
+                                                                          missing_error=False, **kw),
+                            e=_singlelist_parts,
+                            inputs=['a,b', 'b,a', 'c,d', 'C,d', 'e,f', 'g,e', 'a', 'a,,b', ',', '', 'a,b,z,y,x', 'ünï—²,a']),
+    'SingleListPartsOrdered': dict(slim=True, thorough_only=True,
+                                   make=lambda **kw: SingleListGrader(subgrader=NumericalGrader(), ordered=True, partial_credit=False,
+                                                                      delimiter=';', **kw),
+                                   e=lambda: (['1', {'expect': '2', 'grade_decimal': 0.5, 'msg': 'two half'}],
+                                              [('3', '30'), {'expect': '4', 'grade_decimal': 0, 'msg': 'four zero'}],
+                                              ['5', ('6', {'expect': '7', 'grade_decimal': 0.99996})]),
+                                   inputs=['1;2', '2;1', '3;4', '30;4', '5;6', '5;7', '1', '1;2;3', '']),
 }
 
 
@@ -232,29 +349,52 @@ class ItemGraders(ConfigFamily):
     def __init__(self, kind):
         self.kind = kind
         self.name = 'item_' + kind
+        if ITEM_KINDS[kind].get('slim'):
+            self.rule = ('%s (slim: a result-building code path of its own, reduced credit grammar): each of the 12 alternatives alone and '
+                         'paired with the full-credit one [thorough: every subset of <= 2] x wrong_msg W x attempt_based_credit (none, '
+                         'Geometric, constant 0) x credit-message flag x debug (without attempt credit); inputs %r; attempts as below'
+                         % (kind, ITEM_KINDS[kind]['inputs']))
+            return
         self.rule = ('%s: every subset of <=3 [quick 2] of 10 alternatives (full / half+msg / 0.3 / zero+msg / tuple expect / '
-                     'ok pinned False, partial, True / credit 0.00004 / credit 0.99996) x wrong_msg x attempt_based_credit (none, Linear, Geometric, constants 1, 0, '
+                     'ok pinned False, partial, True / credit 0.00004 / credit 0.99996), plus 2 alternatives with an ok pinned on a credit '
+                     'that is not 1 (ok True on 0.5, ok partial on 0: the pin is documented as ignored) alone [thorough: and paired with '
+                     'full / half / zero / pinF / pinP] x wrong_msg x attempt_based_credit (none, Linear, Geometric, constants 1, 0, '
                      '0.33333 [+Reciprocal, Linear with minimum]) x credit-message flag x debug; inputs %r; attempts absent,1,2,7,0,-3'
                      % (kind, ITEM_KINDS[kind]['inputs']))
 
     def configs(self, tier):
         k = ITEM_KINDS[self.kind]
-        pool = alt_pool(*k['e'])
-        for combo in subsets(pool, tier):
-            answers = tuple(pool[i][1] for i in combo)
+        if k.get('thorough_only') and tier != 'thorough':
+            return
+        fresh = k['e'] if callable(k['e']) else (lambda: k['e'])
+        pool = alt_pool(*fresh())
+        slim = k.get('slim', False)
+        if slim:
+            credits = [c for c in credit_options(tier) if c[0] in ('none', 'geometric', 'const0')]
+        else:
+            credits = credit_options(tier)
+        for combo in subsets(pool, tier, slim):
             pinned = any(pool[i][2] for i in combo)
-            for wm in ('', 'W'):
-                for cname, cfn in credit_options(tier):
+            for wm in (('W',) if slim else ('', 'W')):
+                for cname, cfn in credits:
                     for cmsg in ((True,) if cfn is None else (True, False)):
                         for debug in (False, True):
-                            if tier == 'quick' and debug and wm:
+                            if not slim and tier == 'quick' and debug and wm:
+                                continue
+                            if slim and debug and cfn is not None:
                                 continue
                             label = '%s answers=%s wrong_msg=%r attempt_based_credit=%s msg=%s debug=%s' % (
                                 self.kind, [pool[i][0] for i in combo], wm, cname, cmsg, debug)
+                            # kinds whose expect values are lists (validated in place by the library) get fresh lists for every
+                            # grader; the other kinds keep handing the same answer objects to all their graders
+                            if callable(k['e']):
+                                answers = (lambda combo=combo: (lambda p: tuple(p[i][1] for i in combo))(alt_pool(*fresh())))
+                            else:
+                                answers = (lambda fixed=tuple(pool[i][1] for i in combo): fixed)
                             yield dict(label=label, debug=debug, pinned=pinned, inputs=k['inputs'],
                                        make=(lambda answers=answers, wm=wm, cfn=cfn, cmsg=cmsg, debug=debug:
-                                             k['make'](answers=answers, wrong_msg=wm, attempt_based_credit=cfn,
-                                                       attempt_based_credit_msg=cmsg, debug=debug)))
+                                             k['make'](answers=answers(), wrong_msg=wm,
+                                                       attempt_based_credit=cfn, attempt_based_credit_msg=cmsg, debug=debug)))
 
 
 WORDS = ['cat', 'dog', 'emu', '', 'ünï—²']
@@ -263,7 +403,9 @@ WORDS = ['cat', 'dog', 'emu', '', 'ünï—²']
 class ListGraders(ConfigFamily):
     name = 'list_graders'
     rule = ('ListGrader layouts (flat ordered / unordered over StringGrader with partial-credit alternatives; list of different '
-            'subgraders; nested + grouped; SingleListGrader subgrader; two alternative answer lists) x partial_credit x attempt credit '
+            'subgraders; nested + grouped; SingleListGrader subgrader; two alternative answer lists; children / grandchildren / nested '
+            'ListGrader / SingleListGrader child built with debug=True; Formula-LinearComparer + Matrix-entry-credit + Interval '
+            'children) x partial_credit x attempt credit '
             'x message flag x debug; inputs: every tuple over {cat, dog, emu, empty, unicode garbage} of the right length')
 
     def layouts(self):
@@ -294,6 +436,24 @@ class ListGraders(ConfigFamily):
             ('grouped_nested_debug_grandchild', 4, False,
              lambda **kw: ListGrader(answers=[['cat', 'dog'], ['emu', half]],
                                      subgraders=ListGrader(subgraders=StringGrader(debug=True)), grouping=[1, 2, 1, 2], **kw)),
+            # the nested ListGrader itself / a SingleListGrader child built with debug=True below a parent that is not
+            ('grouped_nested_debug_inner_list', 4, False,
+             lambda **kw: ListGrader(answers=[['cat', 'dog'], ['emu', half]],
+                                     subgraders=ListGrader(subgraders=sg(), debug=True, partial_credit=False),
+                                     grouping=[2, 1, 1, 2], **kw)),
+            ('singlelist_sub_debug_child', 2, False,
+             lambda **kw: ListGrader(answers=[['cat', 'dog'], ['emu', 'cat']],
+                                     subgraders=SingleListGrader(subgrader=sg(), debug=True), **kw)),
+            # children of the other item classes, each with a partial-credit mechanism of its own (entries carry the extra
+            # keys those classes use internally)
+            ('mixed_children', 3, False,
+             lambda **kw: ListGrader(answers=[{'comparer': LinearComparer(proportional=0.5), 'comparer_params': ['x^2']},
+                                              ('[1,2]', {'expect': '[3,4]', 'grade_decimal': 0.5, 'msg': 'second best'}),
+                                              ['[', '1', '2', (']', {'expect': ')', 'grade_decimal': 0.5})]],
+                                     subgraders=[FormulaGrader(variables=['x']),
+                                                 MatrixGrader(entry_partial_credit='proportional', suppress_matrix_messages=True),
+                                                 IntervalGrader()],
+                                     ordered=True, **kw)),
         ]
 
     def configs(self, tier):
@@ -304,8 +464,13 @@ class ListGraders(ConfigFamily):
                 words = WORDS
             if lname == 'singlelist_sub':
                 words = ['cat,dog', 'dog,cat', 'emu', '', 'cat,emu,dog']
+            if lname.startswith('singlelist_sub'):
+                words = ['cat,dog', 'dog,cat', 'emu', '', 'cat,emu,dog']
             if lname.startswith('subgrader_list'):
                 inputs = [[a, b] for a in WORDS for b in ('2', '2.05', '', 'ünï', '7')]
+            elif lname == 'mixed_children':
+                inputs = [[a, b, c] for a in ('x^2', '3*x^2', 'x', '') for b in ('[1,2]', '[1,0]', '[3,4]', '[1,2,3]')
+                          for c in ('[1,2]', '[1,2)', '(1,3]', 'ünï—²')]
             else:
                 inputs = [list(t) for t in itertools.product(words, repeat=n)]
             # the wrong number of input boxes: refused, or one entry per submitted input
@@ -355,69 +520,90 @@ class OtherGraders(ConfigFamily):
 
 class PositionalTable(Family):
     name = 'list_entries_follow_inputs'
-    rule = ('ListGrader over a TableGrader whose messages name the graded input: all 4^n input tuples (n = 2, 3) over four inputs, '
-            'ordered / unordered, attempt credit on/off: entry i must carry input i\'s name (positional correspondence)')
+    rule = ('ListGrader over a TableGrader whose messages name the graded input: all 4^n input tuples over four inputs for the layouts '
+            'flat n=2, flat n=3, grouped n=4 (two groups of two, interleaved grouping [1,2,1,2] and [2,1,1,2], nested ListGrader ordered / '
+            'unordered) and grouped n=3 (list of subgraders: a TableGrader and a nested ListGrader, grouping [2,1,2]); outer ordered / '
+            'unordered, attempt credit on/off: entry i must carry input i\'s name (positional correspondence)')
+
+    LAYOUTS = ['flat2', 'flat3', 'nested1212', 'nested2112', 'mixed212']
 
     def setup(self, tier):
-        names = ['p', 'q', 'r', 's']
-        table = {('A', 'p'): 1, ('B', 'q'): 1, ('C', 'r'): 1, ('A', 'q'): 0.5, ('B', 'r'): 0.25}
+        table = {('A', 'p'): 1, ('B', 'q'): 1, ('C', 'r'): 1, ('A', 'q'): 0.5, ('B', 'r'): 0.25, ('C', 's'): 0.75}
+        tg = lambda: TableGrader(table=table, name_pairs=True)
         self.g = {}
-        for n in (2, 3):
+        for layout in self.LAYOUTS:
             for ordered in (False, True):
                 for credit in (None, GeometricCredit(factor=0.5)):
-                    self.g[(n, ordered, credit is not None)] = ListGrader(answers=['A', 'B', 'C'][:n],
-                                                                          subgraders=TableGrader(table=table, name_pairs=True),
-                                                                          ordered=ordered, attempt_based_credit=credit)
+                    if layout.startswith('flat'):
+                        n = int(layout[-1])
+                        g = ListGrader(answers=['A', 'B', 'C'][:n], subgraders=tg(), ordered=ordered, attempt_based_credit=credit)
+                    elif layout.startswith('nested'):
+                        # `ordered` is the outer list's option; the inner list is ordered for 1212 and unordered for 2112
+                        g = ListGrader(answers=[['A', 'B'], ['C', 'A']],
+                                       subgraders=ListGrader(subgraders=tg(), ordered=(layout == 'nested1212')),
+                                       grouping=[int(c) for c in layout[-4:]], ordered=ordered, attempt_based_credit=credit)
+                    else:
+                        # a list of subgraders requires an ordered outer list: `ordered` selects the inner list's option here
+                        g = ListGrader(answers=['A', ['B', 'C']], subgraders=[tg(), ListGrader(subgraders=tg(), ordered=ordered)],
+                                       grouping=[2, 1, 2], ordered=True, attempt_based_credit=credit)
+                    self.g[(layout, ordered, credit is not None)] = g
 
     def cases(self, tier):
-        for n in (2, 3):
+        for layout, n in zip(self.LAYOUTS, (2, 3, 4, 4, 3)):
             for t in itertools.product('pqrs', repeat=n):
-                yield ''.join(t)
+                yield (layout, ''.join(t))
 
     def check(self, case):
-        inputs = list(case)
+        layout, word = case
+        inputs = list(word)
         n = len(inputs)
         calls = 0
         for ordered in (False, True):
             for credit in (False, True):
                 calls += 1
                 try:
-                    res = self.g[(n, ordered, credit)](None, list(inputs), attempt=3)
+                    res = self.g[(layout, ordered, credit)](None, list(inputs), attempt=3)
                 except Exception as e:
                     return Result('raised', True, viol('positional:raised', '%r' % e), calls)
                 p = result_problem(res, n, False, False)
                 if p:
-                    return Result(p[0], True, viol('positional:' + p[0], '%r: %s' % (inputs, p[1]), None, res), calls)
+                    return Result(p[0], True, viol('positional:' + p[0], '%s %r: %s' % (layout, inputs, p[1]), None, res), calls)
                 for i, e in enumerate(res['input_list']):
                     if not e['msg'].endswith('|' + inputs[i]):
                         return Result('position', True,
-                                      viol('positional:entry-not-at-its-input', 'inputs %r ordered=%s: entry %d has message %r'
-                                           % (inputs, ordered, i, e['msg']), inputs[i], e['msg']), calls)
-        return Result('ok', True, None, calls)
+                                      viol('positional:entry-not-at-its-input', '%s inputs %r ordered=%s: entry %d has message %r'
+                                           % (layout, inputs, ordered, i, e['msg']), inputs[i], e['msg']), calls)
+        return Result('ok:' + layout, True, None, calls)
 
 
 class SharedSubgraderDebug(Family):
     name = 'debug_off_grader_shared_with_debug_parent'
     rule = ('a grader built with debug=False that is also the subgrader of a debug=True ListGrader (flat, nested, list of subgraders): '
-            'sequences parent-call / own-call in both orders and twice: every result of the debug=False grader itself, and of a second '
-            'debug=False parent sharing it, must be free of debug output; kinds String, Formula, Numerical, SingleList')
+            'every sequence of three steps over parent-call / own-call / call of a second debug-off parent / debug-parent call that RAISES '
+            '(one input box too few: refused inside the parent\'s check; an input the shared child refuses): every result of the '
+            'debug=False grader itself, and of the debug=False parent sharing it, must be free of debug output; kinds String, Formula, '
+            'Numerical, SingleList')
 
+    # constructor, an input earning credit, a wrong input, an input the grader refuses with an error (None: it has none)
     KINDS = {
-        'String': (lambda: StringGrader(answers='cat', wrong_msg='w'), 'cat', 'dog'),
-        'Formula': (lambda: FormulaGrader(answers='x+1', variables=['x']), '1+x', 'x'),
-        'Numerical': (lambda: NumericalGrader(answers='2'), '2', '3'),
-        'SingleList': (lambda: SingleListGrader(answers=['a', 'b'], subgrader=StringGrader()), 'b,a', 'a,z'),
+        'String': (lambda: StringGrader(answers='cat', wrong_msg='w'), 'cat', 'dog', None),
+        'Formula': (lambda: FormulaGrader(answers='x+1', variables=['x']), '1+x', 'x', 'x+'),
+        'Numerical': (lambda: NumericalGrader(answers='2'), '2', '3', '1/0'),
+        'SingleList': (lambda: SingleListGrader(answers=['a', 'b'], subgrader=StringGrader()), 'b,a', 'a,z', 'a,,b'),
     }
 
     def cases(self, tier):
         for kind in self.KINDS:
+            # P: debug parent call, S: the grader's own call, Q: debug-off parent, X: debug parent called with one box too few (raises),
+            # Y: debug parent called with an input its shared child refuses (raises)
+            steps = 'PSQX' + ('Y' if self.KINDS[kind][3] is not None else '')
             for layout in ('flat', 'sublist', 'nested'):
-                for seq in itertools.product('PSQ', repeat=3):      # P: debug parent call, S: the grader's own call, Q: debug-off parent
+                for seq in itertools.product(steps, repeat=3):
                     yield (kind, layout, ''.join(seq))
 
     def check(self, case):
         kind, layout, seq = case
-        mk, right, wrong = self.KINDS[kind]
+        mk, right, wrong, bad = self.KINDS[kind]
         sub = mk()
         ans = list(sub.config['answers'])
         a = ans[0] if ans else None
@@ -433,10 +619,17 @@ class SharedSubgraderDebug(Family):
         P, pin = parent(True)
         Q, qin = parent(False)
         calls = 0
+        raised = 0
         for step, c in enumerate(seq):
             calls += 1
             if c == 'P':
                 out = call(P, pin, 'absent')
+                continue
+            if c in 'XY':
+                out = call(P, pin[:-1] if c == 'X' else [bad] + pin[1:], 'absent')
+                if out[0] == 'ok':
+                    raise HarnessError('%s: the step %s was meant to raise, it returned %r' % (case, c, out[1]))
+                raised += 1
                 continue
             if c == 'S':
                 out = call(sub, right if step % 2 else wrong, 'absent')
@@ -450,11 +643,86 @@ class SharedSubgraderDebug(Family):
             if p:
                 return Result(p[0], True,
                               viol('shared:%s' % p[0], '%s subgrader shared by a debug=True %s ListGrader, call sequence %s (P debug parent, S itself, '
-                                   'Q debug-off parent), step %d: %s' % (kind, layout, seq, step + 1, p[1]), None, out[1]), calls)
-        return Result('clean', 'P' in seq and ('S' in seq or 'Q' in seq), None, calls)
+                                   'Q debug-off parent, X / Y debug parent call that raises), step %d: %s'
+                                   % (kind, layout, seq, step + 1, p[1]), None, out[1]), calls)
+        before = [i for i, c in enumerate(seq) if c in 'PXY']
+        after = [i for i, c in enumerate(seq) if c in 'SQ']
+        return Result('clean-after-%d-raising' % raised, bool(before) and bool(after) and min(before) < max(after), None, calls)
+
+
+class InferredAnswers(Family):
+    """edX hands every check function the problem's expect attribute; an item grader without configured answers takes its answers from it"""
+    name = 'answers_inferred_from_expect'
+    rule = ('item graders built WITHOUT answers (String, String accept_any, Formula, Numerical, Matrix, SingleList, nested SingleList, '
+            'Interval) and a ListGrader with answers, called the way edX calls them, with the expect attribute: every sequence of two '
+            'calls over {expect 1, expect 2, no expect} x {input matching expect 1, input matching expect 2, a wrong input} x debug x '
+            'attempt-based credit (none / Geometric at attempt 2): every call that returns has the edX structure, a self-consistent ok, '
+            'and no debug output (the inferred answer, ...) unless debug=True; the call without expect on a fresh grader raises and '
+            'leaves the state the second call starts from')
+
+    KINDS = {
+        'String': (lambda **kw: StringGrader(**kw), ['cat', 'dog'], ['cat', 'dog', 'emu']),
+        'StringAcceptAny': (lambda **kw: StringGrader(accept_any=True, **kw), ['cat', 'dog'], ['cat', '', 'emu']),
+        'Formula': (lambda **kw: FormulaGrader(variables=['x'], **kw), ['x+1', '2*x'], ['1+x', 'x*2', 'x^2']),
+        'Numerical': (lambda **kw: NumericalGrader(**kw), ['2', '3'], ['2', '3.0', '5']),
+        'Matrix': (lambda **kw: MatrixGrader(**kw), ['[1,2]', '[3,4]'], ['[1,2]', '[3,4]', '[0,0]']),
+        'SingleList': (lambda **kw: SingleListGrader(subgrader=StringGrader(), **kw), ['a,b', 'c,d'], ['b,a', 'c,d', 'a,z']),
+        'NestedSingleList': (lambda **kw: SingleListGrader(subgrader=SingleListGrader(subgrader=StringGrader()), delimiter=';', **kw),
+                             ['a,b;c,d', 'e;f'], ['c,d;b,a', 'e;f', 'a;f']),
+        'Interval': (lambda **kw: IntervalGrader(**kw), ['[1,2]', '(0,infty)'], ['[1,2]', '(0,infty)', '[1,3)']),
+        'ListGrader': (lambda **kw: ListGrader(answers=['cat', {'expect': 'dog', 'grade_decimal': 0.5}], subgraders=StringGrader(), **kw),
+                       ['cat', 'cat,dog'], [['cat', 'dog'], ['dog', 'cat'], ['emu', '']]),
+    }
+
+    def cases(self, tier):
+        for kind in self.KINDS:
+            for debug in (0, 1):
+                for credit in (0, 1):
+                    for c1 in range(9):
+                        for c2 in range(9):
+                            yield (kind, debug, credit, c1, c2)
+
+    def describe(self, case):
+        kind, debug, credit, c1, c2 = case
+        mk, expects, inputs = self.KINDS[kind]
+        pair = lambda c: 'grader(%r, %r)' % ((expects + [None])[c // 3], inputs[c % 3])
+        return '%s debug=%s credit=%s: %s then %s' % (kind, bool(debug), bool(credit), pair(c1), pair(c2))
+
+    def check(self, case):
+        kind, debug, credit, c1, c2 = case
+        mk, expects, inputs = self.KINDS[kind]
+        kw = dict(debug=bool(debug))
+        if credit:
+            kw['attempt_based_credit'] = GeometricCredit(factor=0.5)
+        g = mk(**kw)
+        calls = 0
+        shapes = []
+        inferred_and_returned = False
+        for c in (c1, c2):
+            expect = (expects + [None])[c // 3]
+            inp = inputs[c % 3]
+            calls += 1
+
+            def body(ch, expect=expect, inp=inp):
+                try:
+                    return ('ok', g(expect, inp, attempt=2) if credit else g(expect, inp))
+                except Exception as e:
+                    return ('err', type(e).__name__)
+            ch, out = chooser.run_with(body)
+            if out[0] != 'ok':
+                shapes.append('raised')
+                continue
+            res = out[1]
+            p = result_problem(res, len(inp) if isinstance(inp, list) else None, bool(debug), False)
+            if p:
+                return Result(p[0], True, viol('inferred:%s' % p[0], '%s: call %d: %s -> %r' % (self.describe(case), calls, p[1], res),
+                                               None, res), calls)
+            inferred_and_returned = inferred_and_returned or expect is not None
+            shapes.append('returned')
+        return Result('+'.join(shapes), inferred_and_returned and not debug, None, calls)
 
 
 def families(tier):
-    fams = [ItemGraders(k) for k in ITEM_KINDS]
-    fams += [ListGraders(), OtherGraders(), PositionalTable(), SharedSubgraderDebug()]
+    fams = [ItemGraders(k) for k in ITEM_KINDS if tier == 'thorough' or not ITEM_KINDS[k].get('thorough_only')]
+    fams += [ListGraders(), OtherGraders(), PositionalTable(), SharedSubgraderDebug(), InferredAnswers()]
     return fams
